@@ -358,6 +358,8 @@ class ExcelCompiler:
         text_name = filename
         if not text_name.endswith(non_pickle_extension or '.yml'):
             text_name += '.' + (non_pickle_extension or 'yml')
+        text_time = (os.path.getmtime(text_name)
+                     if os.path.exists(text_name) else None)
         text_changed = self._to_text(text_name, is_json=is_json)
 
         # save pickle file if requested and has changed
@@ -365,7 +367,11 @@ class ExcelCompiler:
             if not filename.endswith(pickle_extension):
                 filename += '.' + pickle_extension
 
-            if text_changed or not os.path.exists(filename):
+            # (a pickle older than the text file which was there is from
+            #  before a save of the text file only)
+            if text_changed or not os.path.exists(filename) or (
+                    text_time is not None and
+                    os.path.getmtime(filename) < text_time):
                 excel_compiler = self._from_text(text_name, is_json=is_json)
                 if non_pickle_extension not in file_types:
                     os.unlink(text_name)
